@@ -577,20 +577,18 @@ def issorted(table, key=None, reverse=False, strict=False):
     except StopIteration:
         flds = []
     if key is None:
-        prev = next(it)
-        for curr in it:
-            if not op(curr, prev):
-                return False
-            prev = curr
+        # lexical ordering over all fields, same ordering as sort(key=None)
+        indices = range(len(flds))
     else:
-        getkey = comparable_itemgetter(*asindices(flds, key))
-        prev = next(it)
-        prevkey = getkey(prev)
-        for curr in it:
-            currkey = getkey(curr)
-            if not op(currkey, prevkey):
-                return False
-            prevkey = currkey
+        indices = asindices(flds, key)
+    getkey = comparable_itemgetter(*indices)
+    prev = next(it)
+    prevkey = getkey(prev)
+    for curr in it:
+        currkey = getkey(curr)
+        if not op(currkey, prevkey):
+            return False
+        prevkey = currkey
     return True
 
 
